@@ -32,6 +32,12 @@ def ty_of(v):
         return ('obj', v.cls)
     if isinstance(v, tuple):
         return ('tuple', tuple(ty_of(x) for x in v))
+    if isinstance(v, SList):
+        return ('list', v.ety)
+    if isinstance(v, SSet):
+        return ('set', v.ety)
+    if isinstance(v, SMap) and v.default is None:
+        return ('map', v.kty, v.vty)
     raise Undecided('no term type for value %r' % (v,))
 
 
